@@ -15,6 +15,45 @@ from leanfmt import lean_list
 ID = "C01"
 LEAN_MODULES = ["EzdxfVerif.Props.C01"]
 DRIVER_DEPS = ["EzdxfVerif.Model.Schema", "EzdxfVerif.Gen.Schemas", "Drivers.Proto"]
+RULE = (
+    "correspondence (Lean driver vs real code, line by line): X1 one synthetic attribute definition (group code class x xtype "
+    "x default None/equal/different/int-under-float x optional x dxfversion x file version x force_optional x stored value incl. "
+    "-0.0, NaN, 2D/3D points) through the real DXFNamespace.export_dxf_attribs vs exportAttr; X2 random group code mappings "
+    "(str / list valued / '*' names) and tag lists through the real fast_load_dxfattribs (plain, R12 mode, recover=True) and "
+    "simple_dxfattribs_loader vs fastLoad/recoverLoad/simpleLoad, namespace and unprocessed tags compared; X3 for every "
+    "registered class x DXF version: the real export_dxf of one instance with random namespaces (unset / default / value of the "
+    "class) vs exportEntity on the generated plan (every attribute tag, position and value) and the namespace the real loader "
+    "calls build vs loadEntity; X4 LWPolylinePoints.dxftags/from_tags, text_to_multi_tags/multi_tags_to_text, entity_linker vs "
+    "the payload models. non-trivial = reaches a non-default branch (suppression, version gate, list entry, '*', recover, "
+    "payload tag); distinct by hash of the request. oracle (real code only): O1 one instance of every registered type in a real "
+    "document, every declared attribute set (all at once with rotating value classes, and one at a time) -> write -> read -> "
+    "get_default compared per attribute, permitted loss = attribute dxfversion newer than the file / type not exportable; O2 "
+    "whole documents (type-rich generator, operation histories): types, order, handles, owners, attributes, payload accessors, "
+    "XDATA, app data, reactors, extension dictionaries + byte level second cycle via harness/dxfparse.py; O3 the same in a "
+    "process with EZDXF_DISABLE_C_EXT=1; O4 long string tag helpers."
+)
+TRUSTED_BASE = [
+    "hand translation of dxfns.py/attributes.py/types.py into Model/Schema.lean (validated by X1-X3, not proved)",
+    "T-schema tracer (harness/props/c01.py: trace_export/trace_load): the event log of the wrapped real functions is what the code does",
+    "doubles are opaque bit patterns; Python == on floats is modelled for zeros/NaN only; float and string text formats are C03/C09",
+    "validators/fixers of DXFNamespace.__setattr__ and dxf.set() inside recover_graphic_attributes are outside the model",
+    "BY_DESIGN / STRUCTURAL tables of the oracle: attributes that are computed at export, carry document structure or belong to "
+    "another entity sub-type (each entry names the responsible code)",
+]
+ASSUMPTIONS = [
+    "namespaces reachable through the public setter hold cast_value(code, value); the only exception found (RETURN_DEFAULT fixer "
+    "storing an uncast int default under a float code) is equal under Python == and normalised by the harness",
+    "characters outside the file encoding (cp1252 below DXF R2007) are C09's subject and not generated here",
+    "documents are built through the public factory API; bare new_entity() instances of types without factory method get every "
+    "attribute populated first",
+]
+OPEN = [
+    "bespoke export_entity/load_dxf_attribs code (HATCH, MESH, MULTILEADER, SPLINE arrays, DIMSTYLE handles, XDATA, app data, "
+    "reactors, extension dictionaries, entity order, handles) is oracle-only",
+    "attr_roundtrip holds up to the sign of zero (simO); bit-exactness is proved for non-suppressed, non-2D values (attr_roundtrip_exact)",
+    "multi_tags_roundtrip_partial excludes texts with a literal '^J' (counterexample theorem + known finding C01-F10)",
+    "wfPlan fails for MATERIAL (all versions) and ATTRIB/ATTDEF (R12): genuine defects C01-F2 / C01-F9, listed as exceptions of schemas_wf",
+]
 VERSIONS = ["AC1009", "AC1015", "AC1018", "AC1021", "AC1024", "AC1027", "AC1032"]
 VNAME = {"AC1009": "R12", "AC1015": "R2000", "AC1018": "R2004", "AC1021": "R2007", "AC1024": "R2010",
          "AC1027": "R2013", "AC1032": "R2018"}
